@@ -439,6 +439,11 @@ theorem closureSt_ren (fr : List Frame) (d : Nat) (ns : List (List (String × Va
     St.mk (closureFrames (List.map (renFrame ρ) fr) d) ns q = renSt ρ (St.mk (closureFrames fr d) ns q) := by
   simp [renSt, closureFrames_ren]
 
+omit hρ in
+theorem callerDepthMismatch_ren (caller : Option CallerDef) (d : Nat) :
+    callerDepthMismatch (caller.map (renCaller ρ)) d = callerDepthMismatch caller d := by
+  cases caller <;> simp [callerDepthMismatch, renCaller]
+
 theorem callMacroWith_sim (rn rn' : Runner) (h : Sim ρ rn rn') (fuelA : Nat) (st : St) (name : String) (args : List Expr)
     (caller : Option CallerDef) :
     callMacroWith rn' (renVars ρ ctxVars) fuelA (renSt ρ st) (ρ name) (renList ρ args) (caller.map (renCaller ρ)) =
@@ -462,35 +467,37 @@ theorem callMacroWith_sim (rn rn' : Runner) (h : Sim ρ rn rn') (fuelA : Nat) (s
     | some m =>
       simp only [Option.map_some, renMacro, renList_length, renParams, List.length_map, usesCaller_ren]
       have hcs : (caller.map (renCaller ρ)).isSome = caller.isSome := by cases caller <;> rfl
-      rw [hcs]
+      rw [hcs, callerDepthMismatch_ren]
       split
       · rfl
       · split
         · rfl
-        · have e1 := callFrame_ren ρ m.params argVals caller fuelA m.body
-          have e2 := closureSt_ren ρ st1.frames m.depth st1.ns st1.quirk
-          show (match bindDefaults (renVars ρ ctxVars)
-                  ((St.mk (closureFrames (List.map (renFrame ρ) st1.frames) m.depth) st1.ns st1.quirk).push
-                    (Frame.mk (List.map (fun p => (p.1.1, p.2))
-                      ((List.map (fun p => (ρ p.1, renOpt ρ p.2)) m.params).zip argVals)).reverse []
-                      (caller.map (renCaller ρ)) (assignedIn fuelA (renStmts ρ m.body))))
-                  (List.drop argVals.length (List.map (fun p => (ρ p.1, renOpt ρ p.2)) m.params)) with
-              | Except.error e => Except.error e
-              | Except.ok stc =>
-                match rn' stc (renStmts ρ m.body) with
-                | Except.ok (st', out, _) => Except.ok (renSt ρ (St.mk st1.frames st'.ns st'.quirk), out)
-                | Except.error e => Except.error e) = _
-          rw [e1, e2, push_ren, ← List.map_drop]
-          rw [show List.map (fun p => (ρ p.1, renOpt ρ p.2)) (List.drop argVals.length m.params) =
-              renParams ρ (List.drop argVals.length m.params) from rfl, bindDefaults_sim ρ hρ]
-          cases bindDefaults ctxVars _ (List.drop argVals.length m.params) with
-          | error e => rfl
-          | ok stc =>
-            simp only [Except.map]
-            rw [h]
-            cases rn stc m.body with
+        · split
+          · rfl
+          · have e1 := callFrame_ren ρ m.params argVals caller fuelA m.body
+            have e2 := closureSt_ren ρ st1.frames m.depth st1.ns st1.quirk
+            show (match bindDefaults (renVars ρ ctxVars)
+                    ((St.mk (closureFrames (List.map (renFrame ρ) st1.frames) m.depth) st1.ns st1.quirk).push
+                      (Frame.mk (List.map (fun p => (p.1.1, p.2))
+                        ((List.map (fun p => (ρ p.1, renOpt ρ p.2)) m.params).zip argVals)).reverse []
+                        (caller.map (renCaller ρ)) (assignedIn fuelA (renStmts ρ m.body))))
+                    (List.drop argVals.length (List.map (fun p => (ρ p.1, renOpt ρ p.2)) m.params)) with
+                | Except.error e => Except.error e
+                | Except.ok stc =>
+                  match rn' stc (renStmts ρ m.body) with
+                  | Except.ok (st', out, _) => Except.ok (renSt ρ (St.mk st1.frames st'.ns st'.quirk), out)
+                  | Except.error e => Except.error e) = _
+            rw [e1, e2, push_ren, ← List.map_drop]
+            rw [show List.map (fun p => (ρ p.1, renOpt ρ p.2)) (List.drop argVals.length m.params) =
+                renParams ρ (List.drop argVals.length m.params) from rfl, bindDefaults_sim ρ hρ]
+            cases bindDefaults ctxVars _ (List.drop argVals.length m.params) with
             | error e => rfl
-            | ok r => obtain ⟨st', out, sig⟩ := r; rfl
+            | ok stc =>
+              simp only [Except.map]
+              rw [h]
+              cases rn stc m.body with
+              | error e => rfl
+              | ok r => obtain ⟨st', out, sig⟩ := r; rfl
 
 end
 
